@@ -37,6 +37,16 @@ type Case struct {
 	T       uint64 `json:"t,omitempty"`       // version time (unix seconds)
 	V       string `json:"v,omitempty"`       // version id (canonical reference)
 	RawTime string `json:"rawTime,omitempty"` // malformed version time string
+	// ZoneMinutes: the version time T is written with this zone offset (same instant; 0 = "Z")
+	ZoneMinutes int `json:"zoneMinutes,omitempty"`
+}
+
+// spell writes the case's version time as RFC 3339 in the case's zone.
+func (c *Case) spell() string {
+	if c.ZoneMinutes == 0 {
+		return rfc3339(c.T)
+	}
+	return time.Unix(int64(c.T), 0).In(time.FixedZone("", c.ZoneMinutes*60)).Format(time.RFC3339)
 }
 
 func init() {
@@ -111,7 +121,7 @@ func evalCase(c *Case) (kind, sig, msg string, removedApplied bool) {
 		}
 		return "", "", "", false
 	case "time":
-		opt = document.WithVersionTime(rfc3339(c.T))
+		opt = document.WithVersionTime(c.spell())
 		keep = func(i int) bool { return c.Ops[i].Desc.Time <= c.T }
 	case "id":
 		opt = document.WithVersionID(c.V)
@@ -153,7 +163,7 @@ func evalCase(c *Case) (kind, sig, msg string, removedApplied bool) {
 		}
 		q := url.Values{}
 		if c.Cut == "time" {
-			q.Set("versionTime", rfc3339(c.T))
+			q.Set("versionTime", c.spell())
 		} else {
 			q.Set("versionId", c.V)
 		}
@@ -161,6 +171,14 @@ func evalCase(c *Case) (kind, sig, msg string, removedApplied bool) {
 			return "C06/panic", "panic", "REST resolve handler panicked: " + pn, false
 		} else if st == http.StatusOK {
 			return "C06/empty-cut-resolved", "empty-cut-rest", fmt.Sprintf("REST resolution with %s selects no operation but answered 200: %s", q.Encode(), js(body)), false
+		}
+		// the same request for the long-form DID of an anchored DID must not fall back to its embedded initial state
+		if lf := longForm(c); lf != "" && len(pub) > 0 && c.Case.Model().Found {
+			if st, body, pn := restResolveDID(c, lf, pub, unpub, q); pn != "" {
+				return "C06/panic", "panic", "REST resolve handler panicked: " + pn, false
+			} else if st == http.StatusOK {
+				return "C06/empty-cut-resolved", "empty-cut-rest-long-form", fmt.Sprintf("REST resolution of the long-form DID with %s selects no anchored operation but answered 200: %s", q.Encode(), js(body)), false
+			}
 		}
 		return "", "", "", false
 	}
@@ -174,7 +192,7 @@ func evalCase(c *Case) (kind, sig, msg string, removedApplied bool) {
 	if caseID(c)%3 == 0 {
 		q := url.Values{}
 		if c.Cut == "time" {
-			q.Set("versionTime", rfc3339(c.T))
+			q.Set("versionTime", c.spell())
 		} else {
 			q.Set("versionId", c.V)
 		}
@@ -207,7 +225,7 @@ func caseID(c *Case) uint64 {
 	for _, o := range c.Ops {
 		parts = append(parts, o.Desc.Name, o.Desc.Time, o.Desc.Num, o.Desc.Published)
 	}
-	parts = append(parts, c.Code, c.Cut, c.T, c.V, c.RawTime)
+	parts = append(parts, c.Code, c.Cut, c.T, c.V, c.RawTime, c.ZoneMinutes)
 	return ev.Hash(parts...)
 }
 
@@ -255,6 +273,8 @@ func TestVersionTime(t *testing.T) {
 		for _, T := range ts {
 			c := *base
 			c.Cut, c.T = "time", T
+			// the same instant written in another zone selects the same version
+			c.ZoneMinutes = rapid.SampledFrom([]int{0, 0, 0, 120, -300, 330, 1, -1, 839}).Draw(t, "zoneMinutes")
 			kind, sig, msg, nt := evalCase(&c)
 			ev.Record(chkTime, nt, caseID(&c), "cut:time")
 			ev.SampleFn(chkTime, func() interface{} { s := c.Summary(); s["cutTime"] = T; return s })
